@@ -237,7 +237,19 @@ func (in *Interp) callFunction(fn *ssa.Function, args []Value, env []Value) Valu
 	}
 	fr.block = fn.Blocks[0]
 	fr.run()
+	if isVarintSizeFn(fn) {
+		// generated protobuf code: the varint length drives buffer offsets; fork over its (<= 10) values
+		// once here instead of carrying a symbolic offset through every later index expression
+		if t, ok := fr.result.(*Term); ok && !t.IsConst() {
+			return BVConstI(t.W, in.ctx.Concretize(t, "varint length"))
+		}
+	}
 	return fr.result
+}
+
+func isVarintSizeFn(fn *ssa.Function) bool {
+	n := fn.Name()
+	return (strings.HasPrefix(n, "sov") || strings.HasPrefix(n, "soz")) && fn.Signature.Params().Len() == 1 && fn.Signature.Results().Len() == 1 && fn.Pkg != nil
 }
 
 func zeroResults(sig *types.Signature) Value {
